@@ -76,6 +76,7 @@ def fork_results(ex, st, ins, alts):
 def rk(st, key):
     """request-scoped memo key (multi-request harnesses bump st.aux['reqid'])"""
     n = st.aux.get('reqid', 0)
+    if n and st.aux.get('injected') is not None and not any(getattr(f, 'tag', None) for f in st.frames): n = st.aux.get('reqid_a', 0)   # injected request finished: back in request A
     return key if not n else f'#{n}:{key}'
 
 
